@@ -81,3 +81,33 @@ v('c09-lt-strict', ['C09'], ST, """    if i == max {
 v('c09-to_int-base', ['C09'], ST, ".checked_mul(10)", ".checked_mul(16)", 'C09.R3/str_to_int')
 v('c09-to_code', ['C09'], ST, "if s.len() == 1 {\n        s.s[0] as i32", "if s.len() >= 1 {\n        s.s[0] as i32", 'C09.R2/str_to_code')
 v('c09-from_int-sign', ['C09'], ST, "if x >= 0 {\n        SmtString::from(x.to_string())", "if x > 0 {\n        SmtString::from(x.to_string())", 'C09.R2/str_from_int')
+
+# ---- C17 / C08
+v('prefix-C17-from-str', ['C17'], ST, "SmtString::make(x.chars().map(char_code).collect())", "SmtString::make(x.chars().map(|c| c as u32).collect())", 'C17.R1')
+v('prefix-C17-from-char', ['C17'], ST, "SmtString::make(vec![char_code(x)])", "SmtString::make(vec![x as u32])", 'C17.R1')
+v('prefix-C17-parser-push', ['C17'], ST, "self.string_so_far.push(char_code(x));", "self.string_so_far.push(x as u32);", 'C17.R3/parser')
+v('c17-from-slice', ['C17'], ST, ".map(|&x| if x <= MAX_CHAR { x } else { REPLACEMENT_CHAR })", ".map(|&x| x)", 'C17.R')
+v('c17-from-vec-any', ['C17'], ST, "if a.iter().all(|&x| x <= MAX_CHAR) {\n            SmtString::make(a)", "if a.iter().any(|&x| x <= MAX_CHAR) {\n            SmtString::make(a)", 'C17.R')
+v('c17-from-u32', ['C17'], ST, "let x = if x <= MAX_CHAR { x } else { REPLACEMENT_CHAR };", "let x = if x <= MAX_CHAR + 1 { x } else { REPLACEMENT_CHAR };", 'C17.R')
+v('c17-brace-range', ['C17', 'C08'], ST, "if x == '}' && self.pending_idx > 3 && self.escape_code <= MAX_CHAR {", "if x == '}' && self.pending_idx > 3 {", 'parser')
+v('prefix-C08-backslash-display', ['C08'], ST, "            } else if x >= 32 && x < 127 && x != '\\\\' as u32 {\n                write!", "            } else if x >= 32 && x < 127 {\n                write!", 'C08.R2/Display')
+v('c08-hex-count', ['C08'], ST, "if self.pending_idx == 6 {", "if self.pending_idx == 5 {", 'C08.R3/parser')
+v('c08-brace-max', ['C08'], ST, "} else if x.is_ascii_hexdigit() && self.pending_idx < 8 {", "} else if x.is_ascii_hexdigit() && self.pending_idx < 9 {", 'C08.R3/parser')
+v('c08-brace-min', ['C08'], ST, "if x == '}' && self.pending_idx > 3 &&", "if x == '}' && self.pending_idx > 2 &&", 'C08.R3/parser')
+v('c08-drop-consume', ['C08'], ST, """                } else {
+                    self.flush_pending();
+                    self.consume(x);
+                }
+            }
+            State::AfterSlashU => {""", """                } else {
+                    self.flush_pending();
+                }
+            }
+            State::AfterSlashU => {""", 'C08.R3/parser/char-not-consumed')
+v('c08-raw-127', ['C08'], ST, "            } else if x >= 32 && x < 127 && x != '\\\\' as u32 {\n                write!", "            } else if x >= 32 && x <= 127 && x != '\\\\' as u32 {\n                write!", 'C08.R1/Display')
+v('c08-quote', ['C08'], ST, """            if x == '"' as u32 {
+                write!(f, "\\"\\"")?;""", """            if x == '"' as u32 {
+                write!(f, "\\"")?;""", 'C08.R1/Display')
+v('c08-hex-width', ['C08'], ST, 'format!("\\\\u{:04x}", x)\n    } else {\n        format!("\\\\u{{{:x}}}", x)\n    }\n}\n\n// Convert to an ASCII', 'format!("\\\\u{:03x}", x)\n    } else {\n        format!("\\\\u{{{:x}}}", x)\n    }\n}\n\n// Convert to an ASCII', 'C08.R2/smt_char_as_string')
+v('c08-add-hex', ['C08'], ST, "self.escape_code = self.escape_code << 4 | hex;", "self.escape_code = self.escape_code << 3 | hex;", 'C08.R3/parser')
+v('c08-flush-order', ['C08'], ST, "        let pending = &self.pending[0..self.pending_idx];", "        let pending = &self.pending[1..self.pending_idx];", 'C08.R3')
